@@ -88,6 +88,8 @@ pub enum Lit {
     Int(u32),
     Str(String),
     List(Vec<Lit>),
+    /// an unordered set (possibly of sets): `{{1}, {2}}`
+    Set(Vec<Lit>),
     /// the syntax node matched by the stanza (`@_m` / `@_p`): a different value for every
     /// match and for every tree
     Cap,
@@ -103,6 +105,7 @@ impl Lit {
             Lit::Int(i) => i.to_string(),
             Lit::Str(s) => format!("\"{}\"", gen::esc(s)),
             Lit::List(l) => format!("[{}]", l.iter().map(|x| x.render()).collect::<Vec<_>>().join(", ")),
+            Lit::Set(l) => format!("{{{}}}", l.iter().map(|x| x.render()).collect::<Vec<_>>().join(", ")),
         }
     }
     fn cval(&self) -> CVal {
@@ -113,6 +116,7 @@ impl Lit {
             Lit::Int(i) => CVal::Int(*i),
             Lit::Str(s) => CVal::Str(s.clone()),
             Lit::List(l) => CVal::List(l.iter().map(|x| x.cval()).collect()),
+            Lit::Set(l) => CVal::Set(l.iter().map(|x| x.cval()).collect()),
         }
     }
     fn value(&self) -> Value {
@@ -123,6 +127,7 @@ impl Lit {
             Lit::Int(i) => Value::Integer(*i),
             Lit::Str(s) => Value::String(s.clone()),
             Lit::List(l) => Value::List(l.iter().map(|x| x.value()).collect()),
+            Lit::Set(l) => Value::Set(l.iter().map(|x| x.value()).collect()),
         }
     }
     fn to_json(&self) -> J {
@@ -133,6 +138,7 @@ impl Lit {
             Lit::Int(i) => json!(i),
             Lit::Str(s) => json!(s),
             Lit::List(l) => json!(l.iter().map(|x| x.to_json()).collect::<Vec<_>>()),
+            Lit::Set(l) => json!({"set": l.iter().map(|x| x.to_json()).collect::<Vec<_>>()}),
         }
     }
     fn from_json(j: &J) -> Lit {
@@ -142,6 +148,7 @@ impl Lit {
             J::Number(n) => Lit::Int(n.as_u64().unwrap_or(0) as u32),
             J::String(s) => Lit::Str(s.clone()),
             J::Array(a) => Lit::List(a.iter().map(Lit::from_json).collect()),
+            J::Object(o) if o.contains_key("set") => Lit::Set(o["set"].as_array().map(|a| a.iter().map(Lit::from_json).collect()).unwrap_or_default()),
             J::Object(_) => Lit::Cap,
         }
     }
@@ -154,6 +161,8 @@ impl Lit {
             CVal::Str(s) if s.starts_with('\u{0}') => Lit::Cap,
             CVal::Str(s) => Lit::Str(s.clone()),
             CVal::List(l) => Lit::List(l.iter().map(Lit::from_cval).collect::<Option<Vec<_>>>()?),
+            // the same set, written in the reverse of its sorted order
+            CVal::Set(l) => Lit::Set(l.iter().rev().map(Lit::from_cval).collect::<Option<Vec<_>>>()?),
             // "the capture again": whether that is the same node is decided at run time
             CVal::Syn { .. } => Lit::Cap,
             _ => return None,
@@ -164,6 +173,16 @@ impl Lit {
 fn gen_lit(r: &mut Rng) -> Lit {
     if r.chance(1, 8) {
         return Lit::Cap;
+    }
+    if r.chance(1, 10) {
+        // sets, and sets whose elements are sets of equal size
+        let n = r.range(2, 4);
+        let mut els: Vec<Lit> = (0..n as u32).map(|i| if r.chance(1, 2) { Lit::Set(vec![Lit::Int(i)]) } else { Lit::Int(i) }).collect();
+        if r.chance(1, 2) {
+            els = (0..n as u32).map(|i| Lit::Set(vec![Lit::Int(i), Lit::Int(i + 10)])).collect();
+        }
+        r.shuffle(&mut els);
+        return Lit::Set(els);
     }
     match r.below(6) {
         0 => Lit::Int(r.below(5) as u32),
@@ -404,6 +423,7 @@ fn resolve_lit(l: &Lit, cap: &CVal) -> CVal {
     match l {
         Lit::Cap => cap.clone(),
         Lit::List(v) => CVal::List(v.iter().map(|x| resolve_lit(x, cap)).collect()),
+        Lit::Set(v) => CVal::Set(v.iter().map(|x| resolve_lit(x, cap)).collect()),
         other => other.cval(),
     }
 }
